@@ -141,6 +141,21 @@ def runAlone (beh : Behaviour) : Nat → State → State
         | none => s
       | _ => s
 
+/-- the same with the heights the peers have advertised to the PeerInfoManager -/
+def initWith (npeers : Nat) (heights : List Int) (peerHeight : Nat → Int) : State :=
+  { init npeers heights with peerHeight := peerHeight }
+
+/-- one download event as handleEventDownloadBlock runs it for a single height, given how the concurrent pass
+ended for it: a height that was not delivered there is downloaded once more by checkTask — a fresh list, alone,
+the result of that second attempt discarded -/
+def eventDelivers (beh : Behaviour) (npeers : Nat) (h : Int) (peerHeight : Nat → Int) (firstPass : Phase) : Bool :=
+  match firstPass with
+  | .delivered _ _ => true
+  | _ =>
+    match (runAlone beh 200 (initWith npeers [h] peerHeight)).workers with
+    | [wk] => match wk.phase with | .delivered _ _ => true | _ => false
+    | _ => false
+
 /-- after a failed fetch the real worker goes round ReDownload by itself; when availbTask finds nobody it
 sleeps and tries again: pick until something other than `wait` comes out -/
 def pickUntil (s : State) (w : Nat) : Nat → Option (State × Out)
